@@ -9,6 +9,7 @@ import (
 	"os"
 	"os/exec"
 	"path/filepath"
+	"regexp"
 	"sort"
 	"strings"
 	"sync"
@@ -394,6 +395,20 @@ func solve(dir, base, text string, timeoutSec int) (SolverResult, []SolverResult
 	if r.Status == "unsat" || r.Status == "sat" {
 		return r, all
 	}
+	// Second pass: the same goal under a SUBSET of the assumptions (those that
+	// mention no heap component unrelated to the goal). Proving from fewer
+	// assumptions is still a proof, so only an "unsat" answer is used; anything
+	// else falls through to the full query.
+	for rounds := 0; rounds <= 1; rounds++ {
+		if pt, ok := pruneQuery(text, rounds); ok {
+			pr := runOne(context.Background(), solvers[0], dir, fmt.Sprintf("%s_p%d", base, rounds), pt, 3)
+			if pr.Status == "unsat" {
+				pr.Solver += "/subset"
+				all = append(all, pr)
+				return pr, all
+			}
+		}
+	}
 	ctx, cancel := context.WithCancel(context.Background())
 	defer cancel()
 	ch := make(chan SolverResult, len(solvers))
@@ -461,4 +476,138 @@ func (s *Script) queryQF(upto int, goal Term) string {
 	}
 	b.WriteString("(check-sat)\n(get-model)\n")
 	return b.String()
+}
+
+var compVerRe = regexp.MustCompile(`([FE]\$[^\s()!@]+)[!@]\d+`)
+
+// splitTopAnd splits "(and a b c)" into its top-level arguments.
+func splitTopAnd(body string) []string {
+	if !strings.HasPrefix(body, "(and ") || !strings.HasSuffix(body, ")") {
+		return []string{body}
+	}
+	var args []string
+	d, start := 0, -1
+	in := body[5 : len(body)-1]
+	for i := 0; i < len(in); i++ {
+		switch in[i] {
+		case '(':
+			if d == 0 && start < 0 {
+				start = i
+			}
+			d++
+		case ')':
+			d--
+		case '|':
+			// quoted symbol: skip to the closing bar
+			if start < 0 {
+				start = i
+			}
+			for i++; i < len(in) && in[i] != '|'; i++ {
+			}
+		case ' ':
+			if d == 0 && start >= 0 {
+				args = append(args, in[start:i])
+				start = -1
+			}
+		default:
+			if start < 0 {
+				start = i
+			}
+		}
+	}
+	if d != 0 {
+		return []string{body}
+	}
+	if start >= 0 {
+		args = append(args, in[start:])
+	}
+	return args
+}
+
+// pruneQuery returns the query with top-level conjunctions split and every
+// assumption dropped that mentions a heap component (F$…/E$…) unrelated to
+// the goal (the last assertion). rounds widens "related" through small
+// quantifier-free assumptions. ok is false when nothing could be dropped.
+func pruneQuery(text string, rounds int) (string, bool) {
+	lines := strings.Split(text, "\n")
+	goalIdx := -1
+	for i, l := range lines {
+		if strings.HasPrefix(l, "(assert ") {
+			goalIdx = i
+		}
+	}
+	if goalIdx < 0 {
+		return "", false
+	}
+	comps := func(l string) map[string]bool {
+		m := map[string]bool{}
+		for _, x := range compVerRe.FindAllStringSubmatch(l, -1) {
+			m[x[1]] = true
+		}
+		return m
+	}
+	var out []string
+	var asserts []int // indices into out of assumption lines
+	for i, l := range lines {
+		if i != goalIdx && strings.HasPrefix(l, "(assert (and ") && strings.HasSuffix(l, ")") {
+			for _, p := range splitTopAnd(l[len("(assert ") : len(l)-1]) {
+				for _, q := range splitTopAnd(p) {
+					asserts = append(asserts, len(out))
+					out = append(out, "(assert "+q+")")
+				}
+			}
+			continue
+		}
+		if i != goalIdx && strings.HasPrefix(l, "(assert ") {
+			asserts = append(asserts, len(out))
+		}
+		out = append(out, l)
+	}
+	rel := comps(lines[goalIdx])
+	for r := 0; r < rounds; r++ {
+		for _, ai := range asserts {
+			l := out[ai]
+			if strings.Contains(l, "(forall ") {
+				continue
+			}
+			cs := comps(l)
+			if len(cs) > 4 {
+				continue
+			}
+			hit := false
+			for c := range cs {
+				if rel[c] {
+					hit = true
+				}
+			}
+			if hit {
+				for c := range cs {
+					rel[c] = true
+				}
+			}
+		}
+	}
+	dropped := 0
+	drop := map[int]bool{}
+	for _, ai := range asserts {
+		for c := range comps(out[ai]) {
+			if !rel[c] {
+				drop[ai] = true
+				dropped++
+				break
+			}
+		}
+	}
+	if dropped == 0 {
+		return "", false
+	}
+	var b strings.Builder
+	for i, l := range out {
+		if drop[i] {
+			continue
+		}
+		b.WriteString(l)
+		b.WriteByte('\n')
+	}
+	return b.String(), true
 }
